@@ -8,7 +8,7 @@ TECH = "contract-based deductive verification: own VC generator over go/ssa, con
 # property -> (level text, level note, design ref)
 CLAIMED = {
  "C01": ("Proof, unbounded over all field values: for each of the 65 registered message types and the 7 sub-records, the encoder's output is the byte layout transcribed from the 9P2000.L description (layout DSL in the contract file; little-endian integers, 2-byte-length strings, counted lists, AttrMask/SetAttrMask bit tables, permission masking) and the decoder recovers the fields from any frame of that shape (functional form fields = parse(frame) and the for-all-m form); protocol numbers of typ(); typed buffer wrappers proved against the primitives; Read8..64/ReadString/Write8..64/append/consume proved at the byte-array level against their bodies.",
-         "BRIDGE: the sequence-level contracts of the ten core buffer primitives restate their byte-array contracts over the ghost sequences wr/rd and are assumed (listed in evidence); WriteString's array-level loop is not decided (assumed). send and recv are verified against their bodies (header, size checks, drain, payload vectors); registry.get/put are abstract; the send-then-recv composition lemma is on paper. Strings/lists longer than 65535 are outside the property's domain (preconditions).",
+         "BRIDGE: the sequence-level contracts of the ten core buffer primitives restate their byte-array contracts over the ghost sequences wr/rd and are assumed (listed in evidence); WriteString's array-level loop is not decided (assumed). send and recv are verified against their bodies (header, size checks, drain, payload vectors); registry.get is abstract; the send-then-recv composition lemma is on paper. Strings/lists longer than 65535 are outside the property's domain (preconditions).",
          "4-C01"),
  "C02": ("Partial proof: no-panic (index, slice, make, nil, type assertion) and overrun behaviour of every buffer primitive and of every decoder for arbitrary bytes and arbitrary receiver state (sticky overflow flag, zero results on overrun, ReadString allocation <= 65535); handleRequest: a connection error ends serving without a reply; every reply is sent exactly once.",
          "recv is verified against its body (size checks, drain-or-close, consumed byte count, decode only after a complete body) but relies on the assumed contract of vecnet.Buffers.ReadFrom (C17 is not claimed). Goroutine scheduling trusted.",
@@ -59,7 +59,7 @@ CLAIMED = {
          "Partial. ASSUMED: recvmsg (one readv through syscall.RawConn.Read with unsafe iovecs - outside the generator's subset) consumes at most the total buffer length and at least one byte when it reports no error; that the bytes land at the right places on the socket path after a partial read (assumed_ensures, listed); io.ReadAtLeast / io.Reader.Read contracts over the ghost stream; the pooled fixed-part buffer and a payload buffer are different arrays (presumed at recv's call). sumlens (sum of buffer lengths) is an uninterpreted function whose defining unfoldings are injected where contracts name them (true by definition; induction on paper). Send side / several frames per read follow from the exact-consumption postcondition by induction over frames, on paper.",
          "4-C17"),
  "C18": ("Proof: every decoder is verified with the receiver object in an arbitrary initial state (recycled object), so its postcondition 'fields are a function of the frame' forces every list to be reset and every field assigned; read replies carry at most count bytes written by this request's ReadAt.",
-         "registry.get/put are abstract; recv's payload-buffer handling is verified. Bridge contracts as in C01.",
+         "registry.put is verified (the payload reference is dropped before the object goes back into the cache); registry.get is used through the assumed lookup contract of recv; recv's payload-buffer handling is verified. Bridge contracts as in C01.",
          "4-C18"),
  "C19": ("Proof of the per-call page contracts from which the listing property follows: readdir.Readdir (the helper of staticfs and composefs) returns exactly names[offset : min(offset+count, n)] with Offset = index+1 and QID/Type from the table (loop invariant, all offsets/counts/sizes); staticfs.dir.Readdir and composefs.root.Readdir cut every page from the sorted key list (one deterministic order) and pass offset/count through; localfs.Local.Readdir against a ghost model of the OS directory stream: a page is the next slice dirName(offset..), cookies are index+1, a page is full or the directory ended, Type is the QID's type (F6 fixed); the server forwards offset and min(count, msize-11), replies with exactly the backend's entries, and rreaddir.encode sends the longest prefix of whole entries that fits the count (never an empty reply when one entry fits); resume-cookie lemma.",
          "Partial. Assumed: os.File.Seek/Readdirnames behave as a rewindable stream that delivers an unchanged directory in the same order (assumed contracts, listed); maps.Keys + slices.Sort yield the sorted key list (assumed at their call sites); directories do not change during a listing. NOT decided: that a listed QID equals what Walk + GetAttr report for composefs and localfs (only: localfs stats the joined path with the same info() function, staticfs lists the QIDs recorded at construction, and the mapper is stable - C20); the composition over many calls is the resume-cookie lemma plus an induction argued on paper.",
